@@ -146,10 +146,15 @@ func init() {
 		if countByte(p, 'G') != wantG || countByte(p, 'L') != 6-wantG {
 			panicf("EAN-13 parity row G count", p)
 		}
-		// GS1: the UPC-E (number system 0) parity for check digit d is the
-		// exact inverse of the EAN-13 row d.
-		for i := 0; i < 6; i++ {
-			if (p[i] == 'L') == (u[i] == 'L') || (u[i] != 'L' && u[i] != 'G') {
+		// The UPC-E (number system 0) parity for check digit d = 1..9 is the
+		// exact inverse of the EAN-13 row d; every row is 3 G + 3 L and
+		// starts with G.  (Together with the inverted rows of number system 1
+		// and distinctness, the 20 rows are all C(6,3) 3-of-6 patterns.)
+		if countByte(u, 'G') != 3 || countByte(u, 'L') != 3 || u[0] != 'G' {
+			panicf("UPC-E parity row must be 3 G + 3 L starting with G", u)
+		}
+		for i := 0; i < 6 && d > 0; i++ {
+			if (p[i] == 'L') == (u[i] == 'L') {
 				panicf("UPC-E parity row is not the inverse of the EAN-13 row", u)
 			}
 		}
@@ -157,7 +162,7 @@ func init() {
 			panicf("add-on 5 parity row must be 2 G of 5", a)
 		}
 		for e := 0; e < d; e++ {
-			if ean13Parity[e] == p || addOn5Parity[e] == a {
+			if ean13Parity[e] == p || addOn5Parity[e] == a || upceParity0[e] == u {
 				panicf("parity rows not distinct", p)
 			}
 		}
@@ -326,10 +331,10 @@ func UPCEExpand(u string) string {
 //
 // With a11 = N m1..m5 p1..p5:
 //
-//	1. m3 in 0..2, m4=m5=0, p1=p2=0        -> m1 m2 p3 p4 p5 m3
-//	2. m4=m5=0, p1=p2=p3=0                 -> m1 m2 m3 p4 p5 3
-//	3. m5=0, p1=p2=p3=p4=0                 -> m1 m2 m3 m4 p5 4
-//	4. p1=p2=p3=p4=0, p5 in 5..9           -> m1 m2 m3 m4 m5 p5
+//  1. m3 in 0..2, m4=m5=0, p1=p2=0        -> m1 m2 p3 p4 p5 m3
+//  2. m4=m5=0, p1=p2=p3=0                 -> m1 m2 m3 p4 p5 3
+//  3. m5=0, p1=p2=p3=p4=0                 -> m1 m2 m3 m4 p5 4
+//  4. p1=p2=p3=p4=0, p5 in 5..9           -> m1 m2 m3 m4 m5 p5
 //
 // Consequently the UPC-E numbers with d6=3 and d3 in 0..2, with d6=4 and
 // d4=0, or with d6 in 5..9 and d5=0 are non-canonical: they expand to a
